@@ -51,10 +51,13 @@ def valid_deliver(rng, seq):
     if k >= 0.35 and rng.random() < 0.3:
         total = rng.choice([1, 1, 2, 3])
         if rng.random() < 0.5:
-            tl += smppref.tlv(0x020C, struct.pack('>H', rng.randint(0, 300))) + smppref.tlv(0x020E, bytes([total])) + smppref.tlv(0x020F, bytes([rng.randint(1, total)]))
+            # segment numbers as a conformant SMSC sends them (1..total), and inconsistent ones (zero-based, beyond the total)
+            sn = rng.randint(1, total) if rng.random() < 0.7 else rng.choice([0, 0, total + 1, 255])
+            tl += smppref.tlv(0x020C, struct.pack('>H', rng.randint(0, 300))) + smppref.tlv(0x020E, bytes([total])) + smppref.tlv(0x020F, bytes([sn]))
         else:
             esm |= 0x40
-            body = smppref.udh8(rng.randint(0, 255), total, rng.randint(1, total)) + body[:130]
+            sn = rng.randint(1, total) if rng.random() < 0.7 else rng.choice([0, 0, total + 1, 255])
+            body = smppref.udh8(rng.randint(0, 255), total, sn) + body[:130]
     if not body and not tl:
         body = b'a'
     use_payload = (not body) or rng.random() < 0.1
